@@ -984,6 +984,8 @@ def blocking_part(job, r):
             return 'eof'
         state['req'] = req
         body = reply_for(random.Random(state['label']), req['req_id'], req['hash'], state['size'])
+        if state.get('tiny'):
+            body = bytes.fromhex(state['tiny'])
         state['body'] = body
         cut = state.get('cut')
         if cut is not None:
@@ -1026,6 +1028,16 @@ def blocking_part(job, r):
             r.count('blocking_short_write_variants')
             if q.rc != 0 or core_sig(q.get('sig')) != good:
                 r.viol('blocking-tcp:short-write-changes-outcome', 'send() accepting %s octets per call: rc=%#x (whole write: success)%s' % (sc, q.rc, '; what arrived is not a request: ' + state['bad'] if state.get('bad') else ''), 'send=%s' % sc)
+        # the smallest PDUs there are (header only, empty payload): the reader has to hand them up like any other complete PDU - what the upper
+        # layer then says about their content (not a response: format error) is its business, but it is not an I/O or argument error
+        for tiny in ('82210000', '8221000101', '0100', '010101'):
+            state.update(cut=None, recv=rng.choice(['-', '1,1,1,1', '2,2']), tiny=tiny)
+            q = c('sign 0 0 ' + h.hex())
+            state.pop('tiny', None)
+            r.observe(('blocking-tiny', tiny, q.rc))
+            r.count('blocking_tiny_pdus')
+            if q.rc != 0x101:
+                r.viol('blocking-tcp:tiny-pdu-not-delivered', 'a complete reply PDU of %d octets (%s) was on the stream; signing ended with rc=%#x, expected the parser\'s verdict KSI_INVALID_FORMAT (0x101)' % (len(tiny) // 2, tiny, q.rc), 'reply=%s' % tiny)
         # EOF / reset / timeout at every offset
         offs = range(0, L) if L <= 1500 else sorted(set(list(range(0, 12)) + [L - 1, L - 2] + rng.sample(range(L), 40)))
         for off in offs:
